@@ -366,12 +366,12 @@ func TestC20(t *testing.T) {
 			// rule; one service per protocol and port (a second one is a
 			// configuration error by design).
 			taken := map[string]bool{}
-			for i, n := 0, c.Int(label+".services", 0, 4); i < n; i++ {
+			for i, n := 0, c.Weighted(label+".services", 1, 2, 3, 3, 2); i < n; i++ {
 				scheme := core.OneOf(c, label+".svc.scheme", "tcp", "tcp", "udp", "http", "https", "icmp6", "ping6")
 				port := -1
 				if scheme == "tcp" || scheme == "udp" || c.Bool(label+".svc.port.given") {
 					if c.Bool(label + ".svc.port.edge") {
-						port = core.OneOf(c, label+".svc.port", 1, 22, 53, 80, 443, 1023, 1024, 8080, 32767, 32768, 40000, 47369, 65534, 65535)
+						port = core.OneOf(c, label+".svc.port", 1, 22, 80, 443, 1024, 8080, 32767, 32768, 40000, 47369, 65534, 65535)
 					} else {
 						port = c.Int(label+".svc.port.any", 1, 65535)
 					}
